@@ -307,6 +307,136 @@ def run_reconnect(rng, n_msgs, ttl, drop_after, answer_p, keepalive):
     return obs
 
 
+def run_restart(gap, ttl=10.0):
+    """a restart of the application on a persisted correlator: life 1 sends A (never answered) and B (two segments, accepted, receipts
+    pending) and is stopped; `gap` seconds later life 2 - a new ESME with a new SimpleCorrelator on the same directory, default generators -
+    sends C and D (two segments); the receipts for B and D arrive in life 2."""
+    import shutil
+    import struct
+    import tempfile
+    from harness import vsess, smppref
+    from aiosmpplib.correlator import SimpleCorrelator
+    from aiosmpplib.protocol import SubmitSm, SubmitSmResp, GenericNack, DeliverSm
+    from aiosmpplib.state import PhoneNumber
+    loop = vsess.VLoop()
+    asyncio.set_event_loop(loop)
+    smsc = vsess.FakeSMSC(loop)
+    undo = vsess.install(loop, smsc)
+    tmp = tempfile.mkdtemp(prefix='av_c13_')
+    obs = {'requests': [], 'events': [], 'ids': {}}
+    try:
+        silent = set()
+        counter = [0]
+
+        def rc(seq, mid):
+            text = f'id:{mid} sub:001 dlvrd:001 submit date:2401011200 done date:2401011201 stat:DELIVRD err:000 Text:hello'.encode()
+            return smppref.encode_sm(5, seq, src=b'1', dst=b'2', esm_class=0x04, short_message=text)
+
+        def on_pdu(conn, pdu):
+            for p in vsess.split_pdus(pdu)[0]:
+                cmd, seq = struct.unpack('>I', p[4:8])[0], struct.unpack('>I', p[12:16])[0]
+                if cmd < 0x80000000:
+                    obs['requests'].append((loop.time(), conn.index, cmd, seq))
+                if cmd in (1, 2, 9):
+                    conn.send(vsess.bind_resp_for(p))
+                    if conn.index == 1:
+                        # the receipts of life 1's segmented message arrive in life 2
+                        for j, mid in enumerate(sorted(m for m, c in obs['ids'].items() if c == 0)):
+                            conn.send(rc(7000 + j, mid), delay=4.0 + j)
+                elif cmd == 0x15:
+                    conn.send(smppref.header(0x80000015, 0, seq), delay=0.01)
+                elif cmd == 6:
+                    conn.send(smppref.header(0x80000006, 0, seq), delay=0.01)
+                elif cmd == 4:
+                    counter[0] += 1
+                    if conn.index == 0 and counter[0] == 1:
+                        continue                                    # A: never answered
+                    mid = 'm%d' % counter[0]
+                    obs['ids'][mid] = conn.index
+                    conn.send(smppref.header(0x80000004, 0, seq, mid.encode() + b'\x00'), delay=0.05)
+                    if conn.index == 1:
+                        conn.send(rc(7100 + counter[0], mid), delay=8.0 + counter[0])
+        smsc.on_pdu = on_pdu
+        src = PhoneNumber('38591')
+
+        def mk(lid, segmented):
+            return SubmitSm(short_message='s' * 300 if segmented else 'hello ' + lid, source=src, destination=src, log_id=lid, extra_data='X' + lid,
+                            auto_message_payload=not segmented, registered_delivery=1)
+
+        def collect(hook, life):
+            for e in hook.log:
+                if e[0] == 'send_error' and isinstance(e[1], SubmitSm):
+                    obs['events'].append((life, 'error', e[1].log_id, type(e[2]).__name__))
+                elif e[0] == 'received' and isinstance(e[1], (SubmitSmResp, GenericNack)):
+                    obs['events'].append((life, 'response', e[1].log_id, e[1].extra_data))
+                elif e[0] == 'received' and isinstance(e[1], DeliverSm):
+                    obs['events'].append((life, 'receipt', e[1].log_id, e[1].extra_data))
+                elif e[0] == 'sending' and isinstance(e[1], SubmitSm):
+                    obs.setdefault('sent', []).append((life, e[1].log_id, e[1].sequence_num))
+
+        async def main():
+            esme1, hook1 = vsess.quiet_esme(enquire_link_interval=50.0, socket_timeout=4.0, correlator=SimpleCorrelator('r', tmp, max_ttl_response=ttl))
+            t1 = asyncio.create_task(esme1.start())
+            await asyncio.sleep(0.5)
+            await esme1.broker.enqueue(mk('A', False))
+            await esme1.broker.enqueue(mk('B', True))
+            await asyncio.sleep(1.5)
+            await esme1.stop()
+            await asyncio.sleep(0.5)
+            obs['life1_ended'] = t1.done()
+            if not t1.done():
+                t1.cancel()
+            await asyncio.gather(t1, return_exceptions=True)
+            collect(hook1, 1)
+            await asyncio.sleep(gap)
+            esme2, hook2 = vsess.quiet_esme(enquire_link_interval=5.0, socket_timeout=4.0, correlator=SimpleCorrelator('r', tmp, max_ttl_response=ttl))
+            t2 = asyncio.create_task(esme2.start())
+            await asyncio.sleep(0.5)
+            await esme2.broker.enqueue(mk('C', False))
+            await esme2.broker.enqueue(mk('D', True))
+            await asyncio.sleep(ttl * 3 + 30.0)
+            obs['life2_running'] = not t2.done()
+            collect(hook2, 2)
+            t2.cancel()
+            await asyncio.gather(t2, return_exceptions=True)
+        loop.run_until_complete(main())
+    finally:
+        undo()
+        vsess.finish(loop)
+        shutil.rmtree(tmp, ignore_errors=True)
+    return obs
+
+
+def restart_oracle(obs):
+    if not obs.get('life1_ended'):
+        return 'start() of the first life did not end after stop()'
+    if not obs.get('life2_running'):
+        return 'start() of the second life ended'
+    sent = obs.get('sent', [])
+    old = {sq for life, lid, sq in sent if life == 1}
+    reused = [(lid, sq) for life, lid, sq in sent if life == 2 and sq in old]
+    if reused:
+        return (f'after the restart on the persisted correlator new requests were sent under sequence numbers that the persisted requests of the first '
+                f'life carry (A unanswered and younger than the time-to-live, B waiting for its receipts): {reused}')
+    ev = obs['events']
+    for lid in ('A', 'B', 'C', 'D'):
+        outs = [e for e in ev if e[2] == lid and e[1] in ('error', 'response')]
+        if len(outs) != 1:
+            return f'message {lid} got {len(outs)} send outcomes: {outs}'
+        if lid == 'A' and outs[0][3] != 'TimeoutError':
+            return f'the unanswered message A was reported as {outs[0]}'
+        if lid != 'A' and (outs[0][1] != 'response' or outs[0][3] != 'X' + lid):
+            return f'the accepted message {lid} was reported as {outs[0]}'
+    for lid in ('B', 'D'):
+        rs = [e for e in ev if e[1] == 'receipt' and e[2] == lid]
+        if len(rs) != 1 or rs[0][3] != 'X' + lid:
+            return f'the segmented message {lid} (accepted in full, receipts for both segments sent) got the receipt events {rs}; all receipt events: {[e for e in ev if e[1] == "receipt"]}'
+    rs = [e for e in ev if e[1] == 'receipt' and e[2] == 'C']
+    if len(rs) != 1:
+        return f'the plain message C got the receipt events {rs}'
+    return None
+
+
 def reconnect_oracle(obs, ttl):
     """no request is written with a number that an earlier request, still unanswered and younger than the time-to-live, carries;
     every number lies in 1..0x7FFFFFFF; an outcome names the message that was sent under that number"""
@@ -462,6 +592,16 @@ def run(ctx):
                     ctx.violation(f'request 2 was sent under sequence number {sq}, which segment {reused + 1} of {k} of the fully answered message 1 had used; '
                                   f'its response ({variant}) was matched with message(s) {logs_seen} instead of [2] (hook calls {obs[-1]})',
                                   {'function': 'sequence_number_reuse', 'history': [list(e) for e in hist]})
+    # ---- a restart of the application on a persisted correlator (new ESME, default generators): no new request may take the number of
+    #      a request the correlator still holds, and every message of either life gets its own outcome and receipt
+    for gap in (1.0, 30.0) + ((0.2, 5.0, 300.0) if ctx.thorough else ()):
+        obs = run_restart(gap)
+        ctx.traces += 1
+        ctx.case(('restart', gap), nontrivial=True)
+        ctx.count('restart_sessions')
+        msg = restart_oracle(obs)
+        if msg:
+            ctx.violation(f'restart {gap} s after stop(): {msg}', {'function': 'restart', 'gap': gap})
     # ---- whole sessions with connection losses while requests are outstanding
     for j in range(300 if ctx.thorough else 14):
         n_msgs = rng.randint(2, 7)
@@ -495,6 +635,11 @@ def replay(ctx, path):
         obs = run_reconnect(_random.Random(r['seed']), n_msgs=r['n_msgs'], ttl=r['ttl'], drop_after=r['drop_after'], answer_p=r['answer_p'], keepalive=r['keepalive'])
         print('replay: requests on the wire (time, connection, command, number):', [(round(t, 2), c, hex(cmd), sq) for t, c, cmd, sq in obs['requests']][:40])
         msg = reconnect_oracle(obs, r['ttl'])
+    elif r.get('function') == 'restart':
+        obs = run_restart(r['gap'])
+        print('replay: submit_sm sent (life, log_id, sequence number):', obs.get('sent'))
+        print('replay: hook events (life, kind, log_id, detail):', obs['events'])
+        msg = restart_oracle(obs)
     elif r.get('function') in ('sequence_number_reuse', 'late_segment_responses'):
         from harness import C01 as _C01
         hist = [tuple(tuple(x) if isinstance(x, list) else x for x in e) for e in r['history']]
